@@ -243,7 +243,7 @@ StageSubMap(c, k, v, meta, eager, nkp, search) ==
     ELSE << sk,
             CASE sv.t = "obj" -> redactPipelineStage(c, sv, eager, skp, search)
               [] sv.t = "arr" -> redactArrayValues(c, sv, eager, search, isRedactableFieldPatternInArray(c, sv), skp)
-              [] OTHER        -> redactScalarValue(c, <<k, sk>>, sv, search, FALSE),
+              [] OTHER        -> redactScalarValue(c, skp, sv, search, FALSE),     \* whole path since fix (C14)
             hk >>])
 
 redactPipelineStage(c, stage, eager, kp, search) ==
